@@ -11,12 +11,13 @@ func init() { checks["C05"] = checkC05 }
 // expression trees over int operands a..d and bool operands p,q
 
 type expr struct {
-	op   string // "" leaf
-	un   string // unary prefix applied to this node ("" none)
-	l, r *expr
-	leaf string
-	typ  byte // 'i' or 'b'
-	par  bool // explicit parentheses although not needed
+	op    string // "" leaf
+	un    string // unary prefix applied to this node ("" none)
+	l, r  *expr
+	leaf  string
+	typ   byte   // 'i' or 'b'
+	par   bool   // explicit parentheses although not needed
+	konst string // leaf is this constant instead of a parameter
 }
 
 var binPrec = map[string]int{
@@ -108,7 +109,9 @@ func (e *expr) nodes(f func(*expr)) {
 
 func nameLeaves(e *expr) (ni, nb int) {
 	e.nodes(func(x *expr) {
-		if x.op == "" {
+		if x.op == "" && x.konst != "" {
+			x.leaf = x.konst
+		} else if x.op == "" {
 			if x.typ == 'i' {
 				x.leaf = string(rune('a' + ni))
 				ni++
@@ -156,7 +159,11 @@ func unaryVariants(e *expr) []*expr {
 	return out
 }
 
-func exprProg(id int, e *expr, full bool) *Prog {
+// exprProg wraps the expression in a function: form 0 returns it directly, form 1 stores it in a local first and uses
+// it in a condition afterwards (so code FOLLOWING the expression — the store, the branch — is observable too).
+func exprProg(id int, e *expr, full bool) *Prog { return exprProgForm(id, e, full, 0) }
+
+func exprProgForm(id int, e *expr, full bool, form int) *Prog {
 	ni, nb := nameLeaves(e)
 	var params []Param
 	var ps []string
@@ -177,7 +184,14 @@ func exprProg(id int, e *expr, full bool) *Prog {
 	body := e.text(full)
 	name := fmt.Sprintf("f%d", id)
 	src := fmt.Sprintf("func %s(%s) %s {\n\treturn %s\n}\n", name, strings.Join(ps, ", "), rt, body)
-	return &Prog{ID: fmt.Sprintf("expr:%s", body), Src: "package main\n\n" + src, Entry: name, Params: params, Results: []string{rt}, Shared: true, Family: "C05/" + opClass(e)}
+	if form == 1 {
+		zero := "0"
+		if rt == "bool" {
+			zero = "false"
+		}
+		src = fmt.Sprintf("func %s(%s) %s {\n\tw := %s\n\tv := %s\n\tif v == w {\n\t\treturn w\n\t}\n\treturn v\n}\n", name, strings.Join(ps, ", "), rt, zero, body)
+	}
+	return &Prog{ID: fmt.Sprintf("expr%d:%s", form, body), Src: "package main\n\n" + src, Entry: name, Params: params, Results: []string{rt}, Shared: true, Family: "C05/" + opClass(e)}
 }
 
 // opClass names the operators involved (the known-findings key groups texts by the set of adjacent operator pairs).
@@ -202,9 +216,49 @@ func opClass(e *expr) string {
 	return strings.Join(pairs, ",")
 }
 
+// logicNests: short-circuit operators nested inside each other's operands, with comparison operands whose own operands
+// are sums / differences of locals and constants (code the peephole optimizer shortens: the skip distance of the
+// enclosing && / || must be that of the shortened code).
+func logicNests() []*expr {
+	li := func() *expr { return &expr{typ: 'i'} }
+	lb := func() *expr { return &expr{typ: 'b'} }
+	k := func(c string) *expr { return &expr{typ: 'i', konst: c} }
+	bin := func(op string, typ byte, l, r *expr) *expr { return &expr{op: op, typ: typ, l: l, r: r} }
+	cmps := []func() *expr{
+		func() *expr { return bin(">", 'b', bin("+", 'i', li(), li()), li()) },
+		func() *expr { return bin("<", 'b', bin("-", 'i', li(), k("1")), li()) },
+		func() *expr { return bin("==", 'b', bin("*", 'i', li(), li()), li()) },
+		func() *expr { return bin(">=", 'b', li(), bin("+", 'i', li(), k("1"))) },
+		func() *expr { return bin("!=", 'b', bin("+", 'i', k("2"), li()), bin("-", 'i', li(), li())) },
+	}
+	var out []*expr
+	for _, o1 := range logicOps {
+		for _, o2 := range logicOps {
+			for _, e := range cmps {
+				out = append(out,
+					bin(o1, 'b', lb(), bin(o2, 'b', e(), lb())),                     // p o1 (E o2 q)
+					bin(o1, 'b', lb(), bin(o2, 'b', lb(), e())),                     // p o1 (q o2 E)
+					bin(o2, 'b', bin(o1, 'b', lb(), e()), lb()),                     // (p o1 E) o2 q
+					bin(o1, 'b', e(), bin(o2, 'b', lb(), cmps[0]())),                // E o1 (p o2 E')
+					bin(o1, 'b', lb(), bin(o2, 'b', lb(), bin(o1, 'b', e(), lb()))), // p o1 (q o2 (E o1 r))
+				)
+			}
+		}
+	}
+	return out
+}
+
 func genC05(tier string, seed int64) []*Prog {
 	var progs []*Prog
 	id := 0
+	for _, t := range logicNests() {
+		for form := 0; form < 2; form++ {
+			progs = append(progs, exprProgForm(id, t.clone(), false, form))
+			id++
+			progs = append(progs, exprProgForm(id, t.clone(), true, form))
+			id++
+		}
+	}
 	addTrees := func(trees []*expr, withUnary bool, sample int, rng *rand.Rand) {
 		var all []*expr
 		for _, t := range trees {
@@ -219,7 +273,7 @@ func genC05(tier string, seed int64) []*Prog {
 			all = all[:sample]
 		}
 		for _, t := range all {
-			progs = append(progs, exprProg(id, t.clone(), false))
+			progs = append(progs, exprProgForm(id, t.clone(), false, id%2))
 			id++
 			// fully parenthesised twin (parentheses override) for trees with ≥2 operators
 			if t.l != nil && (t.l.op != "" || t.r.op != "") {
@@ -250,10 +304,11 @@ func checkC05(tier string, seed int64) int {
 	agg, st := NewAgg(), &eqStats{}
 	c.runEquiv(progs, "z3", agg, st)
 	agg.Into(c, "")
-	c.Cov("rule", "every well-typed expression tree over int operands a..d / bool operands p,q with 1..2 binary operators (quick: + seeded samples with one unary prefix and with 3 operators; thorough: all unary placements, 3 operators sampled 6000, 4 operators sampled 1500), printed once with Go's minimal parentheses and once fully parenthesised; all operand values symbolic")
+	c.Cov("rule", "every well-typed expression tree over int operands a..d / bool operands p,q with 1..2 binary operators (quick: + seeded samples with one unary prefix and with 3 operators; thorough: all unary placements, 3 operators sampled 6000, 4 operators sampled 1500), printed once with Go's minimal parentheses and once fully parenthesised; the expression is either returned directly or stored in a local that is then compared and returned (alternating); all operand values symbolic")
 	c.Cov("both_sides_fail_paths", st.bothPanic)
 	c.Cov("paths_compared", st.compared)
-	c.Assumption("operands are int (int32) and bool parameters; constants do not occur in the expressions")
+	c.Cov("logic_nest_programs", 4*len(logicNests()))
+	c.Assumption("operands are int (int32) and bool parameters; constants occur only in the logic-nest family (&&/|| nested in each other's operands over comparisons of sums/differences of locals and constants)")
 	c.Assumption("reference semantics: go/types + go/ssa of the same text under GOARCH=386 sizes, interpreted by the same engine")
 	return c.Finish(false)
 }
